@@ -162,7 +162,7 @@ def s_vec_deref(ex, st, call):
     return NotImplemented
 
 
-@rule(r'^<(K|V|P|N|R|S|T|impl [^>]*|&[^>]*) as (AsRef|Borrow)<.*>>::(as_ref|borrow)$', prio=-1)
+@rule(r'^<(K|V|P|N|R|S|T|impl .*?|&.*?) as (AsRef|Borrow)<.*>>::(as_ref|borrow)$', prio=-1)
 def s_generic_asref(ex, st, call):
     a = call.args[0]
     if isinstance(a, Ref):
@@ -1817,3 +1817,436 @@ def ite_value(cond, a, b):
                 o.fields[i] = Cell(ite_value(cond, ca.val, cb.val))
         return o
     return a
+
+
+# =============================================================================== byte-string identity, ordering, ranges (SSI conflict detection)
+def cid(v):
+    """content identity of a byte-string value: clones and conversions share it"""
+    d = deref(v)
+    if isinstance(d, Obj):
+        return d.data.get('cid', d.uid)
+    return ('val', str(d))
+
+
+def ord_of(ex, st, v):
+    """abstract position of a byte string in the total order on keys (injective: equal strings ⇔ equal position)"""
+    d = deref(v)
+    if isinstance(d, Obj):
+        o = d.data.get('ord')
+        if o is None:
+            o = z3.BitVec(f'ord:{cid(d)}', 8)
+            d.data['ord'] = o
+        return o
+    return z3.BitVec(f'ord!{next(st.fresh)}', 8)
+
+
+@rule(r'^<(lsm_tree::)?(Slice|UserKey|UserValue|StrView|ByteView) as Clone>::clone$', r'^<Vec<u8> as Clone>::clone$',
+      r'^<(K|V) as Clone>::clone$', r'^<\[u8\] as ToOwned>::to_owned$', r'^core::slice::<impl \[u8\]>::to_vec$',
+      r'^(lsm_tree::)?Slice::(new|from)$')
+def s_bytes_clone(ex, st, call):
+    a = deref(call.args[0])
+    if not isinstance(a, Obj):
+        return NotImplemented
+    n = Obj(call.dst_ty or a.ty, a.name + "'", a.kind)
+    n.data = dict(a.data)
+    n.data['cid'] = cid(a)
+    if 'ord' in a.data:
+        n.data['ord'] = a.data['ord']
+    return n
+
+
+@rule(r'^<(lsm_tree::)?Slice as (PartialEq|PartialOrd|Ord)(<.*>)?>::(eq|ne|lt|le|gt|ge|cmp)$', r'^<&(lsm_tree::)?Slice as (PartialEq|PartialOrd|Ord)(<.*>)?>::(eq|ne|lt|le|gt|ge|cmp)$',
+      r'^<\[u8\] as (PartialEq|PartialOrd|Ord)(<.*>)?>::(eq|ne|lt|le|gt|ge|cmp)$')
+def s_bytes_cmp(ex, st, call):
+    a, b = ord_of(ex, st, call.args[0]), ord_of(ex, st, call.args[1])
+    k = call.c0.rsplit('::', 1)[-1]
+    if k == 'cmp':
+        return EnumV('std::cmp::Ordering', z3.If(z3.ULT(a, b), bv(-1), z3.If(a == b, bv(0), bv(1))), 'ord')
+    return {'eq': lambda: a == b, 'ne': lambda: a != b, 'lt': lambda: z3.ULT(a, b), 'le': lambda: z3.ULE(a, b),
+            'gt': lambda: z3.UGT(a, b), 'ge': lambda: z3.UGE(a, b)}[k]()
+
+
+def mk_bound(ex, variant, payload=None, ty='Bound<T>'):
+    e = ex.mk_enum(ty, variant, [payload] if payload is not None else None, 'bound')
+    return e
+
+
+@rule(r'^<.* as RangeBounds<.*>>::(start_bound|end_bound)$')
+def s_range_bounds(ex, st, call):
+    side = 'start' if call.c0.endswith('start_bound') else 'end'
+    r = deref(call.args[0])
+    q = parse_qualified(call.c0)
+    selfty = q[0] if q else ''
+    if not isinstance(r, Obj):
+        return NotImplemented
+    if base_name(selfty) == 'RangeFull' or base_name(r.ty) == 'RangeFull':
+        e = mk_bound(ex, 'Unbounded', ty=call.dst_ty); e.data['bound_of'] = (r.uid, side)
+        return e
+    if r.kind == 'tuple' or selfty.startswith('('):
+        c = r.fields.get(0 if side == 'start' else 1)
+        if c is None:
+            c = Cell(ex.fresh(st, 'Bound<lsm_tree::Slice>', f'{r.name}.{side}')); r.fields[0 if side == 'start' else 1] = c
+        b = _as_enum(ex, st, c.val)
+        if isinstance(c.val, Obj):
+            c.val = b
+        e = EnumV(call.dst_ty, b.disc, b.name)
+        for var, o in b.payloads.items():
+            n = Obj(o.ty, o.name, 'variant')
+            for i, cc in o.fields.items():
+                n.fields[i] = Cell(Ref(cc))
+            e.payloads[var] = n
+        for var in ('Included', 'Excluded'):
+            if var not in e.payloads:
+                _payload(ex, st, b, var)
+                n = Obj('', var, 'variant'); n.fields[0] = Cell(Ref(b.payloads[var].fields[0])); e.payloads[var] = n
+        e.data['bound_of'] = b.data.get('bound_of', (r.uid, side))
+        b.data.setdefault('bound_of', (r.uid, side))
+        return e
+    bn = base_name(selfty) or base_name(r.ty)
+    fixed = {('RangeFrom', 'start'): ('Included', 0), ('RangeFrom', 'end'): ('Unbounded', None),
+             ('RangeTo', 'start'): ('Unbounded', None), ('RangeTo', 'end'): ('Excluded', 0),
+             ('RangeToInclusive', 'start'): ('Unbounded', None), ('RangeToInclusive', 'end'): ('Included', 0),
+             ('Range', 'start'): ('Included', 0), ('Range', 'end'): ('Excluded', 1)}.get((bn, side))
+    if fixed:
+        var, fi = fixed
+        if fi is None:
+            e = mk_bound(ex, 'Unbounded', ty=call.dst_ty)
+        else:
+            c = r.fields.get(fi)
+            if c is None:
+                c = Cell(ex.fresh(st, generic_args(r.ty)[0] if generic_args(r.ty) else '', f'{r.name}.{fi}')); r.fields[fi] = c
+            e = mk_bound(ex, var, Ref(c), ty=call.dst_ty)
+        e.data['bound_of'] = (r.uid, side)
+        return e
+    # generic R: a memoised symbolic bound of this range object
+    key = side + '_bound'
+    e = r.data.get(key)
+    if e is None:
+        e = EnumV(call.dst_ty, z3.BitVec(f'bound:{r.name}.{side}', 64), f'{r.name}.{side}')
+        st.pc.append(z3.ULE(e.disc, bv(2)))
+        kobj = Obj('K', f'{r.name}.{side}.key', 'opaque')
+        for var in ('Included', 'Excluded'):
+            o = Obj('', var, 'variant'); o.fields[0] = Cell(Ref(Cell(kobj))); e.payloads[var] = o
+        e.data['bound_of'] = (r.uid, side)
+        r.data[key] = e
+    return e
+
+
+@rule(r'^Bound::(map|cloned|as_ref)$', r'^<Bound<.*> as Clone>::clone$')
+def s_bound_map(ex, st, call):
+    b = _as_enum(ex, st, deref(call.args[0]) if call.c0.endswith(('clone', 'as_ref')) else call.args[0])
+    if not isinstance(b, EnumV):
+        return NotImplemented
+    kind = call.c0.rsplit('::', 1)[-1]
+    if kind in ('cloned', 'clone', 'as_ref'):
+        e = EnumV(call.dst_ty, b.disc, b.name)
+        for var, o in b.payloads.items():
+            n = Obj(o.ty, o.name, 'variant')
+            for i, c in o.fields.items():
+                if kind == 'as_ref':
+                    n.fields[i] = Cell(Ref(c))
+                else:
+                    pv = deref(c.val) if isinstance(c.val, Ref) else c.val
+                    if isinstance(pv, Obj):
+                        cp = Obj(pv.ty, pv.name, pv.kind); cp.data = dict(pv.data); cp.data['cid'] = cid(pv)
+                        pv = cp
+                    n.fields[i] = Cell(pv)
+            e.payloads[var] = n
+        e.data = dict(b.data)
+        return e
+    out = []
+    cases = [(0, 'Included'), (1, 'Excluded'), (2, 'Unbounded')]
+    states = [(st, b, call.args[1])]
+    for d, var in cases:
+        nxt = []
+        for s2, b2, clo2 in states:
+            if s2.status != 'running':
+                continue
+            for s3, yes, kept in fork_cond(ex, s2, _disc_is(b2, d), [b2, clo2]):
+                if not yes:
+                    nxt.append((s3, kept[0], kept[1])); continue
+                if var == 'Unbounded':
+                    e = mk_bound(ex, 'Unbounded', ty=call.dst_ty); e.data = dict(kept[0].data)
+                    out.append((s3, e)); continue
+                pv = _payload(ex, s3, kept[0], var)
+                for s4, v in ex.call_closure(s3, kept[1], [pv]):
+                    if s4.status != 'running':
+                        out.append((s4, None)); continue
+                    e = mk_bound(ex, var, v, ty=call.dst_ty)
+                    e.data['bound_of'] = kept[0].data.get('bound_of')
+                    e.data['mapped_cid'] = (cid(pv), cid(v))
+                    out.append((s4, e))
+        states = nxt
+    return out
+
+
+@rule(r'^<Bound<.*> as PartialEq>::(eq|ne)$')
+def s_bound_eq(ex, st, call):
+    a = _as_enum(ex, st, deref(call.args[0])); b = _as_enum(ex, st, deref(call.args[1]))
+    if not (isinstance(a, EnumV) and isinstance(b, EnumV)):
+        return NotImplemented
+    da = bv(a.disc) if isinstance(a.disc, int) else a.disc
+    db = bv(b.disc) if isinstance(b.disc, int) else b.disc
+    # only the comparison with Unbounded matters to fjall; payload equality is decided through the order values
+    same_payload = z3.BoolVal(True)
+    for var in ('Included', 'Excluded'):
+        oa, ob_ = a.payloads.get(var), b.payloads.get(var)
+        if oa is not None and ob_ is not None and 0 in oa.fields and 0 in ob_.fields:
+            same_payload = z3.And(same_payload, z3.Implies(da == bv({'Included': 0, 'Excluded': 1}[var]),
+                                                             ord_of(ex, st, oa.fields[0].val) == ord_of(ex, st, ob_.fields[0].val)))
+    eq = z3.And(da == db, z3.Or(da == bv(2), same_payload))
+    return eq if call.c0.endswith('eq') else z3.Not(eq)
+
+
+@rule(r'^(std::ops::)?(RangeTo|RangeToInclusive|RangeFrom|Range|RangeInclusive)::contains$')
+def s_range_contains(ex, st, call):
+    r = deref(call.args[0]); x = call.args[1]
+    bn = call.c0.split('::')[-2]
+    if not isinstance(r, Obj):
+        return NotImplemented
+    xo = ord_of(ex, st, x)
+
+    def fo(i):
+        c = r.fields.get(i)
+        return ord_of(ex, st, c.val) if c is not None else z3.BitVec(f'ord!{next(st.fresh)}', 8)
+    if bn == 'RangeTo':
+        return z3.ULT(xo, fo(0))
+    if bn == 'RangeToInclusive':
+        return z3.ULE(xo, fo(0))
+    if bn == 'RangeFrom':
+        return z3.UGE(xo, fo(0))
+    if bn == 'Range':
+        return z3.And(z3.UGE(xo, fo(0)), z3.ULT(xo, fo(1)))
+    return NotImplemented
+
+
+# ---- BTreeSet<Slice> with a concrete list of symbolic members
+def set_items(s):
+    return s.data.get('items')
+
+
+@rule(r'^(std::collections::)?BTreeSet::(contains|insert|is_empty|len|range|iter|new)$', r'^<(std::collections::)?BTreeSet<.*> as Default>::default$',
+      r'^<&(std::collections::)?BTreeSet<.*> as IntoIterator>::into_iter$')
+def s_btreeset(ex, st, call):
+    kind = call.c0.rsplit('::', 1)[-1]
+    if kind in ('new', 'default'):
+        return mk_seq(call.dst_ty, [], 'btreeset')
+    s = deref(call.args[0])
+    if not isinstance(s, Obj):
+        return NotImplemented
+    items = set_items(s)
+    if kind == 'insert':
+        st.emit(Ev('SET_INSERT', obj=s, args={'key': deref(call.args[1])}, site=call.site))
+        if items is not None:
+            items.append(Cell(call.args[1]))
+        return z3.Bool(f'set_inserted!{next(st.fresh)}')
+    if items is None:
+        return NotImplemented
+    if kind == 'is_empty':
+        return z3.BoolVal(len(items) == 0)
+    if kind == 'len':
+        return bv(len(items))
+    if kind == 'contains':
+        k = ord_of(ex, st, call.args[1])
+        return z3.Or(*[ord_of(ex, st, c.val) == k for c in items]) if items else z3.BoolVal(False)
+    if kind in ('iter', 'into_iter'):
+        return mk_iter(ex, st, call.dst_ty, s, True)
+    if kind == 'range':
+        rng = deref(call.args[1])
+        lo = _as_enum(ex, st, rng.fields[0].val) if isinstance(rng, Obj) and 0 in rng.fields else None
+        hi = _as_enum(ex, st, rng.fields[1].val) if isinstance(rng, Obj) and 1 in rng.fields else None
+        if lo is None or hi is None:
+            return NotImplemented
+
+        def bdisc(b):
+            return bv(b.disc) if isinstance(b.disc, int) else b.disc
+
+        def bkey(b, var):
+            o = b.payloads.get(var)
+            return ord_of(ex, st, o.fields[0].val) if o is not None and 0 in o.fields else z3.BitVec(f'ord!{next(st.fresh)}', 8)
+        dl, dh = bdisc(lo), bdisc(hi)
+        lk = z3.If(dl == bv(0), bkey(lo, 'Included'), bkey(lo, 'Excluded'))
+        hk = z3.If(dh == bv(0), bkey(hi, 'Included'), bkey(hi, 'Excluded'))
+        # std: BTreeSet::range panics if start > end, or start == end and both Excluded
+        panics = z3.And(dl != bv(2), dh != bv(2), z3.Or(z3.UGT(lk, hk), z3.And(lk == hk, dl == bv(1), dh == bv(1))))
+        out = []
+        for s2, pan, kept in fork_cond(ex, st, panics, [s, lo, hi]):
+            if pan:
+                s2.emit(Ev('PANIC', args={'msg': 'BTreeSet::range: range start is greater than range end', 'callee': call.c0}, site=call.site))
+                s2.status = 'panic'
+                out.append((s2, None)); continue
+            s_, lo_, hi_ = kept
+            dl2, dh2 = bdisc(lo_), bdisc(hi_)
+            lk2 = z3.If(dl2 == bv(0), bkey(lo_, 'Included'), bkey(lo_, 'Excluded'))
+            hk2 = z3.If(dh2 == bv(0), bkey(hi_, 'Included'), bkey(hi_, 'Excluded'))
+            members = []
+            for c in set_items(s_):
+                o = ord_of(ex, s2, c.val)
+                inlo = z3.Or(dl2 == bv(2), z3.And(dl2 == bv(0), z3.UGE(o, lk2)), z3.And(dl2 == bv(1), z3.UGT(o, lk2)))
+                inhi = z3.Or(dh2 == bv(2), z3.And(dh2 == bv(0), z3.ULE(o, hk2)), z3.And(dh2 == bv(1), z3.ULT(o, hk2)))
+                members.append((z3.And(inlo, inhi), c))
+            it = Obj(call.dst_ty, 'set_range', 'opaque'); it.data['range_members'] = members
+            out.append((s2, it))
+        return out
+    return NotImplemented
+
+
+@rule(r'^<(std::collections::)?btree_set::Range<.*> as Iterator>::next$')
+def s_set_range_next(ex, st, call):
+    it = deref(call.args[0])
+    if not isinstance(it, Obj) or 'range_members' not in it.data:
+        return NotImplemented
+    mem = it.data['range_members']
+    # only emptiness is observed by fjall (`.next().is_some()`): Some iff some member lies in the range
+    some = z3.Or(*[c for c, _ in mem]) if mem else z3.BoolVal(False)
+    e = EnumV(call.dst_ty, z3.If(some, bv(1), bv(0)), 'range_next')
+    o = Obj('', 'Some', 'variant'); o.fields[0] = Cell(Ref(mem[0][1]) if mem else None); e.payloads['Some'] = o
+    return e
+
+
+# ---- BTreeMap<u64, _> with a concrete list of (symbolic key, value) entries: the oracle's committed transactions,
+#      a conflict manager's per-keyspace tables
+def kv_entries(m):
+    return m.data.get('kv')
+
+
+@rule(r'^(std::collections::)?BTreeMap::(range|retain|insert|get|get_mut|is_empty|len|iter|entry)$', r'^<&(std::collections::)?BTreeMap<.*> as IntoIterator>::into_iter$', prio=1)
+def s_btreemap_kv(ex, st, call):
+    m = deref(call.args[0])
+    if not isinstance(m, Obj) or kv_entries(m) is None:
+        return NotImplemented
+    kv = kv_entries(m)
+    kind = call.c0.rsplit('::', 1)[-1]
+    if kind == 'is_empty':
+        return z3.Not(z3.Or(*[e['present'] for e in kv])) if kv else z3.BoolVal(True)
+    if kind == 'len':
+        t = bv(0)
+        for e in kv:
+            t = t + z3.If(e['present'], bv(1), bv(0))
+        return t
+    if kind in ('get', 'get_mut'):
+        k = as_bv64(deref(call.args[1]))
+        out = []
+        cur = [(st, m)]
+        for i in range(len(kv)):
+            nxt = []
+            for s2, m2 in cur:
+                e = kv_entries(m2)[i]
+                for s3, yes, kept in fork_cond(ex, s2, z3.And(e['present'], e['key'] == k), [m2]):
+                    if yes:
+                        out.append((s3, ex.mk_enum(call.dst_ty, 'Some', [Ref(kv_entries(kept[0])[i]['cell'])])))
+                    else:
+                        nxt.append((s3, kept[0]))
+            cur = nxt
+        for s2, _m2 in cur:
+            out.append((s2, ex.mk_enum(call.dst_ty, 'None')))
+        return out
+    if kind == 'insert':
+        k = as_bv64(call.args[1])
+        st.emit(Ev('BTM_INSERT', obj=m, args={'key': k, 'val': call.args[2]}, site=call.site))
+        kv.append({'key': k, 'present': z3.BoolVal(True), 'cell': Cell(call.args[2]), 'inserted': True})
+        return ex.fresh(st, call.dst_ty, 'old')
+    if kind == 'range':
+        rng = deref(call.args[1])
+        lo = None
+        if isinstance(rng, Obj) and base_name(rng.ty) == 'RangeFrom' and 0 in rng.fields:
+            lo = as_bv64(rng.fields[0].val)
+        st.emit(Ev('BTM_RANGE', obj=m, args={'from': lo, 'range_ty': rng.ty if isinstance(rng, Obj) else ''}, site=call.site))
+        it = Obj(call.dst_ty, 'btm_range', 'opaque')
+        it.data['btm'] = m; it.data['from'] = lo
+        return it
+    if kind in ('iter', 'into_iter'):
+        # in key order: the setup provides entries sorted (keys constrained ascending)
+        cells = []
+        for e in kv:
+            t = Obj('(&u64, &V)', 'pair', 'tuple'); t.fields[0] = Cell(Ref(Cell(e['key']))); t.fields[1] = Cell(Ref(e['cell']))
+            cells.append((e['present'], Cell(t)))
+        it = Obj(call.dst_ty, 'btm_iter', 'opaque'); it.data['guarded_items'] = cells; it.data['pos'] = 0
+        return it
+    if kind == 'retain':
+        clo = call.args[1]
+        states = [(st, m, clo)]
+        for i in range(len(kv)):
+            nxt = []
+            for s2, m2, clo2 in states:
+                if s2.status != 'running':
+                    nxt.append((s2, m2, clo2)); continue
+                e = kv_entries(m2)[i]
+                holder = Obj('', 'h'); holder.fields[0] = Cell(m2); holder.fields[1] = Cell(clo2)
+                s2.globals['__btm_retain'] = holder
+                for s3, keep in ex.call_closure(s2, clo2, [Ref(Cell(e['key'])), Ref(e['cell'])]):
+                    h3 = s3.globals.pop('__btm_retain', None)
+                    if s3.status != 'running' or h3 is None:
+                        nxt.append((s3, None, None)); continue
+                    m3 = h3.fields[0].val
+                    e3 = kv_entries(m3)[i]
+                    s3.emit(Ev('BTM_RETAIN_VISIT', obj=m3, args={'key': e3['key'], 'present': e3['present'], 'keep': keep}, site=call.site))
+                    e3['present'] = z3.And(e3['present'], keep)
+                    nxt.append((s3, m3, h3.fields[1].val))
+            states = nxt
+        return [(s2, ex.unit() if s2.status == 'running' else None) for s2, _m, _c in states]
+    return NotImplemented
+
+
+@rule(r'^<(std::collections::)?btree_map::Iter<.*> as Iterator>::next$', prio=1)
+def s_btm_iter_next(ex, st, call):
+    it = deref(call.args[0])
+    if not isinstance(it, Obj) or 'guarded_items' not in it.data:
+        return NotImplemented
+    items = it.data['guarded_items']
+    out = []
+    cur = [(st, it)]
+    while cur:
+        s2, it2 = cur.pop()
+        pos = it2.data['pos']
+        if pos >= len(items):
+            out.append((s2, ex.mk_enum(call.dst_ty, 'None'))); continue
+        present, cell = it2.data['guarded_items'][pos]
+        it2.data['pos'] = pos + 1
+        for s3, yes, kept in fork_cond(ex, s2, present, [it2]):
+            if yes:
+                out.append((s3, ex.mk_enum(call.dst_ty, 'Some', [kept[0].data['guarded_items'][pos][1].val])))
+            else:
+                cur.append((s3, kept[0]))
+    return out
+
+
+@rule(r'^<(std::collections::)?btree_map::Range<.*> as Iterator>::any$')
+def s_btm_range_any(ex, st, call):
+    it = deref(call.args[0])
+    if not isinstance(it, Obj) or 'btm' not in it.data:
+        return NotImplemented
+    m = it.data['btm']; lo = it.data['from']
+    clo = call.args[1]
+    out = []
+    states = [(st, m, clo)]
+    n = len(kv_entries(m))
+    for i in range(n):
+        nxt = []
+        for s2, m2, clo2 in states:
+            if s2.status != 'running':
+                continue
+            e = kv_entries(m2)[i]
+            inr = z3.And(e['present'], z3.UGE(e['key'], lo) if lo is not None else z3.BoolVal(True))
+            for s3, yes, kept in fork_cond(ex, s2, inr, [m2, clo2]):
+                if not yes:
+                    nxt.append((s3, kept[0], kept[1])); continue
+                e3 = kv_entries(kept[0])[i]
+                pair = Obj('(&u64, &ConflictManager)', 'pair', 'tuple')
+                pair.fields[0] = Cell(Ref(Cell(e3['key']))); pair.fields[1] = Cell(Ref(e3['cell']))
+                holder = Obj('', 'h'); holder.fields[0] = Cell(kept[0]); holder.fields[1] = Cell(kept[1])
+                s3.globals['__any'] = holder
+                s3.emit(Ev('BTM_ANY_VISIT', obj=kept[0], args={'key': e3['key'], 'idx': i}, site=call.site))
+                for s4, r in ex.call_closure(s3, kept[1], [pair]):
+                    h4 = s4.globals.pop('__any', None)
+                    if s4.status != 'running' or h4 is None:
+                        out.append((s4, None)); continue
+                    for s5, hit, kept5 in fork_cond(ex, s4, r, [h4.fields[0].val, h4.fields[1].val]):
+                        if hit:
+                            out.append((s5, z3.BoolVal(True)))
+                        else:
+                            nxt.append((s5, kept5[0], kept5[1]))
+        states = nxt
+    for s2, _m, _c in states:
+        out.append((s2, z3.BoolVal(False)))
+    return out
